@@ -27,10 +27,12 @@ type ValueScenario struct {
 	// store
 	Steps []StoreStep `json:"steps"`
 	Seed  int64       `json:"seed"`
+	Mode  string      `json:"mode"` // separate | shared (one option list reused for both instances)
 }
 
 type StoreStep struct {
 	Op     string              `json:"op"`
+	Via    string              `json:"via"` // raw | item
 	Inst   int                 `json:"inst"`
 	Name   string              `json:"name"`
 	Val    string              `json:"val"`
@@ -81,9 +83,10 @@ func Samples(kind string) []any {
 	case "uint64":
 		return []any{uint64(0), uint64(1) << 40, uint64(math.MaxInt64)}
 	case "float32":
-		return []any{float32(0), float32(1.5), float32(-2.25)}
+		return []any{float32(0), float32(1.5), float32(-2.25), float32(0.1), float32(16777216)}
 	case "float64":
-		return []any{0.0, 1.5, -2.25, 1e-9, 123456789.125, 1e20, math.MaxFloat64, math.SmallestNonzeroFloat64}
+		return []any{0.0, 1.5, -2.25, 1e-9, 123456789.125, 1e20, math.MaxFloat64, math.SmallestNonzeroFloat64,
+			0.1 + 0.2, math.Pi, -math.E, 9007199254740994.0, 1.0 / 3.0, 5e-324, 2.5e-7, 1234567.890123456}
 	case "string":
 		return []any{"", "plain", "üñí©ödé ✓ 漢字", "with \"quotes\" and \\ and \n newline", "true", "12"}
 	case "slice":
@@ -243,7 +246,9 @@ func engineValue(kind string, res *ValueResult) {
 		res.Mismatches = append(res.Mismatches, "parse: "+err.Error())
 		return
 	}
-	for _, v := range Samples(kind) {
+	for vi, v0 := range append(Samples(kind), Samples(kind)...) {
+		v := v0
+		asItem := vi >= len(Samples(kind)) // second pass: the task result arrives wrapped as an item
 		res.Checked++
 		ctx, cancel := context.WithCancel(context.Background())
 		inst, err := bpmn.NewEngine().NewProcess(defs, bpmn.WithContext(ctx), bpmn.WithVariables(map[string]any{"a": v, "e": v}))
@@ -270,7 +275,11 @@ func engineValue(kind string, res *ValueResult) {
 				case bpmn.TaskTrace:
 					_ = t.GetProperties()
 					_ = t.GetHeaders()
-					t.Do(bpmn.DoWithResults(map[string]any{"r": v}), bpmn.DoWithObjects(map[string]any{"out": v}))
+					if asItem {
+						t.Do(bpmn.DoWithResults(map[string]any{"r": schema.NewValue(v)}), bpmn.DoWithObjects(map[string]any{"out": v}))
+					} else {
+						t.Do(bpmn.DoWithResults(map[string]any{"r": v}), bpmn.DoWithObjects(map[string]any{"out": v}))
+					}
 					answered = true
 				case bpmn.CeaseFlowTrace:
 					break loop
@@ -317,18 +326,35 @@ func storeRun(sc ValueScenario, res *ValueResult) {
 	ctx, cancel := context.WithCancel(context.Background())
 	defer cancel()
 	var insts [2]*bpmn.Process
-	for i := range insts {
-		insts[i], err = bpmn.NewEngine().NewProcess(defs, bpmn.WithContext(ctx))
-		if err != nil {
-			res.Mismatches = append(res.Mismatches, "newprocess: "+err.Error())
-			return
+	if sc.Mode == "shared" {
+		// one engine, ONE option list used for both instances
+		engine := bpmn.NewEngine()
+		opts := []bpmn.Option{bpmn.WithContext(ctx), bpmn.WithVariables(map[string]any{"a": concrete["v1"]})}
+		for i := range insts {
+			insts[i], err = engine.NewProcess(defs, opts...)
+			if err != nil {
+				res.Mismatches = append(res.Mismatches, "newprocess: "+err.Error())
+				return
+			}
+		}
+	} else {
+		for i := range insts {
+			insts[i], err = bpmn.NewEngine().NewProcess(defs, bpmn.WithContext(ctx))
+			if err != nil {
+				res.Mismatches = append(res.Mismatches, "newprocess: "+err.Error())
+				return
+			}
 		}
 	}
 	for si, st := range sc.Steps {
 		res.Checked++
 		loc := insts[st.Inst-1].Locator()
 		if st.Op == "set" {
-			loc.SetVariable(st.Name, concrete[st.Val])
+			if st.Via == "item" {
+				loc.SetVariable(st.Name, schema.NewValue(concrete[st.Val]))
+			} else {
+				loc.SetVariable(st.Name, concrete[st.Val])
+			}
 		}
 		// after every operation both instances must hold exactly what the model says
 		for ii := 0; ii < 2; ii++ {
@@ -356,6 +382,102 @@ func storeRun(sc ValueScenario, res *ValueResult) {
 	}
 }
 
+const setIsolationXML = `<?xml version="1.0" encoding="UTF-8"?>
+<bpmn:definitions xmlns:bpmn="http://www.omg.org/spec/BPMN/20100524/MODEL" xmlns:olive="http://olive.io/spec/BPMN/MODEL" id="d2" targetNamespace="http://bpmn.io/schema/bpmn" expressionLanguage="https://github.com/expr-lang/expr">
+  <bpmn:process id="pa" isExecutable="true">
+    <bpmn:startEvent id="sa"><bpmn:outgoing>fa1</bpmn:outgoing></bpmn:startEvent>
+    <bpmn:serviceTask id="ta">
+      <bpmn:extensionElements><olive:taskDefinition type="service"/><olive:results><olive:field name="x" type="integer"/></olive:results></bpmn:extensionElements>
+      <bpmn:incoming>fa1</bpmn:incoming><bpmn:outgoing>fa2</bpmn:outgoing>
+    </bpmn:serviceTask>
+    <bpmn:endEvent id="ea"><bpmn:incoming>fa2</bpmn:incoming></bpmn:endEvent>
+    <bpmn:sequenceFlow id="fa1" sourceRef="sa" targetRef="ta"/>
+    <bpmn:sequenceFlow id="fa2" sourceRef="ta" targetRef="ea"/>
+  </bpmn:process>
+  <bpmn:process id="pb" isExecutable="true">
+    <bpmn:startEvent id="sb"><bpmn:outgoing>fb1</bpmn:outgoing></bpmn:startEvent>
+    <bpmn:serviceTask id="tb1">
+      <bpmn:extensionElements><olive:taskDefinition type="service"/></bpmn:extensionElements>
+      <bpmn:incoming>fb1</bpmn:incoming><bpmn:outgoing>fb2</bpmn:outgoing>
+    </bpmn:serviceTask>
+    <bpmn:serviceTask id="tb2">
+      <bpmn:extensionElements><olive:taskDefinition type="service"/><olive:properties><olive:property name="x" type="integer"/><olive:property name="y" type="integer" ref="$x"/></olive:properties></bpmn:extensionElements>
+      <bpmn:incoming>fb2</bpmn:incoming><bpmn:outgoing>fb3</bpmn:outgoing>
+    </bpmn:serviceTask>
+    <bpmn:endEvent id="eb"><bpmn:incoming>fb3</bpmn:incoming></bpmn:endEvent>
+    <bpmn:sequenceFlow id="fb1" sourceRef="sb" targetRef="tb1"/>
+    <bpmn:sequenceFlow id="fb2" sourceRef="tb1" targetRef="tb2"/>
+    <bpmn:sequenceFlow id="fb3" sourceRef="tb2" targetRef="eb"/>
+  </bpmn:process>
+</bpmn:definitions>`
+
+// setIsolation: two processes of one process set; process A stores the task result x = 7 and
+// completes; only then process B moves on to a task whose properties are bound to the variable
+// x by name and by reference: B must not see A's value.
+func setIsolation(res *ValueResult) {
+	defs, err := schema.Parse([]byte(setIsolationXML))
+	if err != nil {
+		res.Mismatches = append(res.Mismatches, "parse: "+err.Error())
+		return
+	}
+	ctx, cancel := context.WithCancel(context.Background())
+	defer cancel()
+	ps, err := bpmn.NewEngine().NewProcessSet(defs, bpmn.WithContext(ctx))
+	if err != nil {
+		res.Mismatches = append(res.Mismatches, "newprocessset: "+err.Error())
+		return
+	}
+	ch := make(chan tracing.ITrace, 1024)
+	ps.Tracer().SubscribeChannel(ch)
+	if err := ps.StartAll(ctx); err != nil {
+		res.Mismatches = append(res.Mismatches, "startall: "+err.Error())
+		return
+	}
+	res.Checked++
+	var tb1 bpmn.TaskTrace
+	aDone, seen := false, false
+	deadline := time.After(5 * time.Second)
+	for !seen {
+		select {
+		case tr := <-ch:
+			switch t := tracing.Unwrap(tr).(type) {
+			case bpmn.TaskTrace:
+				id := ""
+				if p, ok := t.GetActivity().Element().Id(); ok {
+					id = *p
+				}
+				switch id {
+				case "ta":
+					t.Do(bpmn.DoWithResults(map[string]any{"x": 7}))
+				case "tb1":
+					tb1 = t
+					if aDone {
+						t.Do()
+					}
+				case "tb2":
+					for name, it := range t.GetProperties() {
+						if it != nil && reflect.DeepEqual(canon(it.Value()), int64(7)) {
+							res.Mismatches = append(res.Mismatches, fmt.Sprintf("process set: process B is offered property %s = 7, the task result process A stored in ITS variable x", name))
+						}
+					}
+					seen = true
+					t.Do()
+				}
+			case bpmn.CeaseFlowTrace:
+				if elemId(t.Process) == "pa" {
+					aDone = true
+					if tb1 != nil {
+						tb1.Do()
+					}
+				}
+			}
+		case <-deadline:
+			res.Mismatches = append(res.Mismatches, "process set isolation scenario did not get to task tb2")
+			return
+		}
+	}
+}
+
 // ValueRun executes one scenario.
 func ValueRun(run int, sc ValueScenario) ValueResult {
 	res := ValueResult{Run: run, Mismatches: []string{}}
@@ -366,6 +488,8 @@ func ValueRun(run int, sc ValueScenario) ValueResult {
 		engineValue(sc.Kind, &res)
 	case "store":
 		storeRun(sc, &res)
+	case "set":
+		setIsolation(&res)
 	}
 	return res
 }
